@@ -130,6 +130,21 @@ def scan_reports(prop, text):
                 ents.append(fr[0])
         loc = re.search(r"Location is global '([^']+)'", body)
         out.append(('%s:tsan:%s:%s%s' % (prop, kind, '|'.join(ents[:2]) or 'unknown', (':' + loc.group(1)) if loc else ''), m.group(0)[:3000]))
+    # memcheck: only reports with a photospline frame count (uninitialised values reaching results or control flow, invalid accesses)
+    for b in re.split(r'\n==\d+== \n', text):
+        m = re.search(r'==\d+== (Conditional jump or move depends on uninitialised value\(s\)|Use of uninitialised value of size \d+|Invalid (?:read|write) of size \d+|Syscall param .*? uninitialised)', b)
+        if not m:
+            continue
+        first = b.split('Uninitialised value was created')[0].split('Address 0x')[0]
+        fn = None
+        for fm in re.finditer(r'==\d+==\s+(?:at|by) 0x[0-9A-F]+: (.+?) \(([^()]*)\)\s*$', first, re.M):
+            loc = fm.group(2)
+            if ('bspline' in loc or 'splinetable' in loc or 'fitsio.h' in loc or 'convolve' in loc or 'glam.c' in loc or 'nnls.c' in loc or 'cholesky_solve.c' in loc or 'splineutil.c' in loc or 'permute.h' in loc or 'grideval.h' in loc or 'aux.h' in loc or 'fit.h' in loc) and 'vf_' not in loc:
+                fn = _fn_name(fm.group(1))
+                break
+        kind = re.sub(r'\d+', 'N', m.group(1)).replace(' ', '-')[:60]
+        if fn:
+            out.append(('%s:memcheck:%s:%s' % (prop, kind, fn), b[:3000]))
     # helgrind
     blocks = re.split(r'\n==\d+== \n', text)
     for b in blocks:
@@ -307,7 +322,7 @@ def _run_range(prop, ps, binp, seed, tier, a, b, tmpdir, res, wid, verbose=False
                 res.counters['tool-reports-seen'] = res.counters.get('tool-reports-seen', 0) + len(reps)
             for key, snip in reps:
                 res.add_viol(key, dict(pass_name=ps.name, case=last_begin if last_begin is not None else start, seed=seed, tier=tier, detail={'report': snip}))
-            if done and rc in (0, 66) and not restart:
+            if done and rc in (0, 66, 99) and not restart:
                 rc = 0
         if done and rc == 0 and not restart:
             with res.lock:
